@@ -269,11 +269,20 @@ def run_check(prop, mod, tier, seed):
     os.makedirs(os.path.join(VERIF, "replays"), exist_ok=True)
     errors = []
     validated = 0
+    concrete_cases = []      # (origin, case, detail): concrete inputs on which the native oracle failed
     # 1. translator validation on the repo's own inputs
     try:
         validated += int(mod.validate(tier) or 0)
     except core.Inconclusive as ex:
         errors.append("translator validation inconclusive: %s" % (ex,))
+    except AssertionError as ex:
+        # `assert not bad, (case, bad)`: a concrete case of the module's own validation list failed the property oracle on the real
+        # code.  It is replayed natively below like a counterexample; only if it does not reproduce is it a machinery error.
+        a = ex.args[0] if ex.args else None
+        if isinstance(a, tuple) and len(a) == 2 and isinstance(a[0], dict):
+            concrete_cases.append(("validation", a[0], a[1]))
+        else:
+            errors.append("translator validation failed: %r\n%s" % (ex, traceback.format_exc()))
     except BaseException as ex:
         errors.append("translator validation failed: %r\n%s" % (ex, traceback.format_exc()))
 
@@ -357,17 +366,54 @@ def run_check(prop, mod, tier, seed):
 
     # 4. sample validation against the uninstrumented implementation
     all_samples = []
+    late_cases = []
     for o, r in zip(obls, results):
         if o.check_sample and r["samples"]:
             try:
                 rr = run_native(prop, "check_samples", {"obligation": o.name, "samples": r["samples"]})
                 validated += int(rr.get("validated", 0))
                 for bad in rr.get("mismatches", []):
-                    errors.append("%s: symbolic run disagrees with native run on sample: %s" % (o.name, json.dumps(bad, default=repr)[:1500]))
+                    if isinstance(bad, dict) and isinstance(bad.get("sample"), dict):
+                        late_cases.append((o, bad["sample"], bad.get("bad") or bad.get("detail")))
+                    else:
+                        errors.append("%s: symbolic run disagrees with native run on sample: %s" % (o.name, json.dumps(bad, default=repr)[:1500]))
             except Exception as ex:
                 errors.append("%s: sample validation crashed: %s" % (o.name, ex))
         for s in r["samples"][:3]:
             all_samples.append({"obligation": o.name, "inputs": s})
+
+    # 4b. concrete inputs on which the native oracle failed (a validation case, or the concretised sample of an explored path): the
+    # real code is the arbiter - if the failure reproduces in a fresh uninstrumented interpreter it is a violation like any other
+    def concrete(oname, label, case, detail):
+        key = json.dumps([label, case], sort_keys=True, default=repr)
+        if key in seen:
+            return
+        seen.add(key)
+        h = hashlib.sha256(key.encode()).hexdigest()[:12]
+        path = os.path.join(VERIF, "replays", "%s-%s-%s.json" % (prop, oname, h))
+        rec = {"property": prop, "obligation": oname, "label": label, "case": case, "detail": detail}
+        try:
+            rr = run_native(prop, "replay", rec)
+        except Exception as ex:
+            errors.append("%s: native run of a concrete case crashed: %s" % (oname, ex))
+            return
+        rec["replay"] = rr
+        with open(path, "w") as f:
+            json.dump(rec, f, indent=1, default=repr, sort_keys=True)
+        if not rr.get("reproduced"):
+            errors.append("%s: symbolic run disagrees with native run on a concrete case: %s" % (oname, json.dumps([case, detail], default=repr)[:1500]))
+            return
+        sig = rr.get("signature") or label
+        hit = [k for k in known if k.get("signature") == sig]
+        if hit:
+            if not any(s_ == sig for s_, _, _ in known_hits):
+                known_hits.append((sig, hit[0], path))
+        else:
+            reported.append((label, path, rr.get("detail")))
+    for origin, case, detail in concrete_cases:
+        concrete(origin, (obls[0].labels or ["concrete-case"])[0] if obls else "concrete-case", case, detail)
+    for o, case, detail in late_cases:
+        concrete(o.name, (o.labels or ["concrete-case"])[0], case, detail)
 
     # 5. evidence
     states = sum(r["stats"].get("paths", 0) for r in results)
